@@ -457,6 +457,21 @@ def _known_lookups(node, atoms):
     return out
 
 
+from .cfg import BOOLFLAG
+
+
+def _is_boolean_expr(e):
+    if isinstance(e, ast.Compare):
+        return True
+    if isinstance(e, ast.UnaryOp) and isinstance(e.op, ast.Not):
+        return True
+    if isinstance(e, ast.BoolOp):
+        return all(_is_boolean_expr(v) for v in e.values)
+    if isinstance(e, ast.Call) and isinstance(e.func, ast.Name) and e.func.id in ('bool', 'isinstance', 'any', 'all', 'callable', 'hasattr'):
+        return True
+    return False
+
+
 def explore(stmts, atoms, names=(), upto=None, max_paths=20000, exceptions=False, env0=None, may_raise=None, is_subclass=None, nonnull=(ast.Tuple, ast.List, ast.Dict, ast.Set, ast.JoinedStr), mark=None,
             key_lookups=False):
     """Feasible control-flow paths of `stmts` under the 3-valued atom valuation `atoms(expr)` (branches whose test evaluates to a constant are
@@ -500,6 +515,15 @@ def explore(stmts, atoms, names=(), upto=None, max_paths=20000, exceptions=False
             v = eval3(node.ast.test, cenv, atoms)
             if v is not UNK and bool(v) != (label == 'true'):
                 return None
+            # a boolean flag (a local last assigned a comparison / negation / boolean constant on this path) that is tested by itself: the branch taken fixes its
+            # value until it is re-assigned - `if not use_pysam: ..; if use_pysam: ..` has two feasible paths, not four
+            t_ = node.ast.test
+            neg = False
+            while isinstance(t_, ast.UnaryOp) and isinstance(t_.op, ast.Not):
+                t_, neg = t_.operand, not neg
+            if v is UNK and isinstance(t_, ast.Name) and cenv.get(t_.id) is BOOLFLAG:
+                cenv = dict(cenv)
+                cenv[t_.id] = (label == 'true') != neg
         if node.id in stop_ids:
             res.append({'kind': 'upto', 'stmt': None, 'calls': calls, 'env': env, 'path': None, 'stores': stores, 'consts': cenv})
             return None
@@ -512,6 +536,8 @@ def explore(stmts, atoms, names=(), upto=None, max_paths=20000, exceptions=False
             val = node.ast.value
             cenv = dict(cenv)
             cenv[nm] = val.value if isinstance(val, ast.Constant) else eval3(val, cenv, atoms)
+            if cenv[nm] is UNK and _is_boolean_expr(val):
+                cenv[nm] = BOOLFLAG
             if cenv[nm] is UNK and (isinstance(val, nonnull) or (isinstance(val, ast.Call) and isinstance(val.func, ast.Name) and val.func.id in
                                                                ('int', 'len', 'float', 'str', 'abs', 'min', 'max', 'sum', 'list', 'tuple', 'dict', 'set', 'sorted', 'bool', 'round'))):
                 cenv[nm] = NONNULL        # a display / subscript of a table of tuples / result of a value-building builtin is not None
